@@ -104,12 +104,13 @@ def run_part(pid, part, tier, seed, scratch, replay=None):
         jobs.append((cmd, out, timeout))
     with ThreadPoolExecutor(max_workers=min(NCPU, len(jobs))) as ex:
         results = list(ex.map(lambda j: run_engine(*j), jobs))
-    m = {"evaluations": 0, "distinct": set(), "outcomes": set(), "samples": [], "violations": [], "violation_count": 0,
+    m = {"evaluations": 0, "distinct": set(), "outcomes": set(), "states": set(), "samples": [], "violations": [], "violation_count": 0,
          "sig_counts": {}, "counters": {}, "notes": [], "exhaustive": True, "rule": results[0].get("rule", ""), "wall": 0.0}
     for r in results:
         m["evaluations"] += r.get("evaluations", 0)
         m["distinct"].update(r.get("distinct_hashes", []))
         m["outcomes"].update(r.get("outcome_hashes", []))
+        m["states"].update(r.get("state_hashes", []))
         m["violations"] += r.get("violations", [])
         m["violation_count"] += r.get("violation_count", 0)
         for k, v in r.get("sig_counts", {}).items():
@@ -181,7 +182,7 @@ def write_evidence(prop, tier, seed, plan, parts_res, wall, nviol, extra_assumpt
     cov["exhaustive"] = all(p["exhaustive"] for p in parts_res)
     cov["distinct_outcomes"] = outcomes
     if level == "model_checking":
-        st = counters.get("states", 0)
+        st = sum(len(p["states"]) for p in parts_res) or counters.get("states", 0)
         tr = counters.get("transitions", 0)
         ex = counters.get("executions", 0)
         if st and tr:
